@@ -43,7 +43,8 @@ quota rate speed ticks unit volts width xpos ypos zone angle bias cell dose edge
 lane mass nib ohm port qty rpm seq tag usage vol watt axis yaw zeta""".split()
 
 UPPER_WORDS = """RED GREEN BLUE CYAN AMBER IDLE BUSY DONE FAIL WARN LOW MID HIGH OPEN SHUT EAST WEST NORTH
-SOUTH FAST SLOW HOT COLD DRY WET ONE TWO SIX TEN UNSET READY ARMED SAFE""".split()
+SOUTH FAST SLOW HOT COLD DRY WET ONE TWO SIX TEN UNSET READY ARMED SAFE 50HZ 2D 3V3 X86 V2 9600 RGB8""".split()
+# (UPPER_CASE words may carry digits: constants and enum members are emitted verbatim in every language)
 
 PROTO_WORDS = "drone pen shared common base core link frame telem ctrl nav pwr".split()
 
@@ -118,7 +119,7 @@ class NamePool:
         r = self.rng
 
         def make():
-            n = r.choice(UPPER_WORDS)
+            n = r.choice([w for w in UPPER_WORDS if not w[0].isdigit()])
             if r.random() < 0.7:
                 n += "_" + r.choice(UPPER_WORDS)
             if r.random() < 0.3:
